@@ -188,8 +188,26 @@ func c14Run(u *vfUnit) {
 		}
 		u.Count("rw_requests", int64(rw))
 		base := rs.R.Count()
-		sent := vfGo(func() { rs.R.Send(stream) })
-		w, dump := rs.R.WaitCount(base+len(burst), 120*time.Second)
+		eofAfterBurst := bi%3 == 2
+		if eofAfterBurst {
+			// the peer ends its sending direction right behind the burst: everything it sent must still be
+			// carried out in order before anything is closed (replies may be cut short at shutdown)
+			label += "/eof-after-burst"
+			u.Count("bursts_followed_by_eof", 1)
+			rs.R.Send(stream)
+			if msg := rs.End(120 * time.Second); msg != "" {
+				u.Violation("serve-end:"+kind.String(), label+": "+msg, nil)
+			}
+		}
+		sent := vfGo(func() {
+			if !eofAfterBurst {
+				rs.R.Send(stream)
+			}
+		})
+		w, dump := vfDone, ""
+		if !eofAfterBurst {
+			w, dump = rs.R.WaitCount(base+len(burst), 120*time.Second)
+		}
 		<-sent
 		witness := map[string]any{"config": label, "burst_len": len(burst), "unit": u.Index, "burst_index": bi}
 		if w != vfDone {
@@ -202,7 +220,7 @@ func c14Run(u *vfUnit) {
 			rs.End(60 * time.Second)
 			continue
 		}
-		resp := rs.R.All()[base:]
+		resp := rs.R.All()[min(base, rs.R.Count()):]
 		for i, body := range resp {
 			if i >= len(burst) {
 				break
@@ -225,8 +243,10 @@ func c14Run(u *vfUnit) {
 			}
 		}
 		hooks.Uninstall()
-		if msg := rs.End(120 * time.Second); msg != "" {
-			u.Violation("serve-end:"+kind.String(), label+": "+msg, witness)
+		if !eofAfterBurst {
+			if msg := rs.End(120 * time.Second); msg != "" {
+				u.Violation("serve-end:"+kind.String(), label+": "+msg, witness)
+			}
 		}
 		// final content: every write present
 		for h := 0; h < nh; h++ {
